@@ -498,31 +498,19 @@ def lbatch_term(c):
     return cp(lllz(c["refs"]), cln(c["rsz"]), cln(c["ids"]))
 
 
-def lang_model_term(case, out, as_coded=True):
-    """as_coded: the lengths the bucket parameters are computed from are what the code reads
-    (x[0].size(0) of the item); otherwise the reference lengths"""
+def lang_model_term(case, out):
     items, W = lang_items(case)
-    ds = cl([cp(llz(r), cn(i)) for r, i in items])
-    suppress = cb(case["su"] if as_coded else False)
-    if "err" in out:
-        r = res(out, str)
-        if out["err"].startswith("iter:") or r is None:
+    parts = [loader_terms(case, out, case["lens"])]
+    if "ok" in out:
+        o = out["ok"]
+        ds = cl([cp(llz(r), cn(i)) for r, i in items])
+        order = orders_for(case, o["n"], 1)[0]
+        impl = cl([lbatch_term(c) or "BAD" for c in o["col0"]])
+        if "BAD" in impl:
             return "false"
-        return (f"match lang_loader_batches {suppress} {cn(W)} {ds} {lp(case)} [] with "
-                f"Err e => err_eqb e {out['err']} | Ok _ => false end")
-    o = out["ok"]
-    if isinstance(o["tables"], dict) or o["n"] != len(items):
-        return "false"
-    orders = orders_for(case, o["n"], case["k"] + 1)
-    parts = [f"res_eqb lln_eqb (lang_loader_batches {suppress} {cn(W)} {ds} {lp(case)} {cln(od)}) (Ok {lln(b)})"
-             for od, b in zip(orders, o["idx"])]
-    parts += [cb(l == len(b)) for l, b in zip(o["len"], o["idx"])]
-    impl = cl([lbatch_term(c) or "BAD" for c in o["col0"]])
-    if "BAD" in impl:
-        return "false"
-    parts.append(f"res_eqb (list_eqb (lbatch_eqb {cb(not case['su'])})) "
-                 f"(lang_loader {suppress} {cn(W)} {ds} {lp(case)} {cb(case['bf'])} {cb(case['sort'])} {cln(orders[0])}) (Ok {impl})")
-    parts.append(cb(not o["meta"] and o["len"] == o["lenB"]))
+        parts.append(f"check_lang_loader {cb(not case['su'])} {cn(W)} {ds} {lp(case)} {cb(case['bf'])} "
+                     f"{cb(case['sort'])} {cln(order)} (Ok {impl})")
+        parts.append(cb(not o["meta"] and o["len"] == o["lenB"]))
     return _all(parts)
 
 
@@ -781,8 +769,7 @@ def evaluate(chk, case, root):
             return out, spect_model_term(case, out), spect_spec_term(case, out)
         if k == "lang":
             out = run_lang(case, root)
-            # the spec for a LangDataLoader: behave as the model does on the reference lengths
-            return out, lang_model_term(case, out, True), lang_model_term(case, out, False)
+            return out, lang_model_term(case, out), loader_spec_term(case, out, case["lens"])
         if k == "cw":
             out = run_cw(case, root)
             return out, cw_model_term(case, out), None
@@ -806,9 +793,15 @@ def evaluate(chk, case, root):
 
 
 def region(case):
-    """parts of the input space where the faithful (as-coded) model itself violates the property:
-    the recorded defects.  There, code that no longer matches the model but satisfies the spec is
-    what a repaired /repo looks like."""
+    """parts of the input space where the faithful model itself violates the property (a recorded,
+    unrepaired defect; there, code that differs from the model but satisfies the spec is what a
+    repaired /repo looks like).  Empty since F8 and F11 were repaired in /repo: the model describes
+    the repaired code and is proved to satisfy the property everywhere."""
+    return []
+
+
+def _defect_area(case):
+    """labels only: where F8 / F11 used to strike, so that a regression is named in the record"""
     k = case["kind"]
     r = []
     if k in ("spect", "lang") and case["nb"] > 1:
@@ -823,13 +816,13 @@ def region(case):
 
 def finding_class(case, out):
     """which recorded defect an observed violation belongs to (None = a new one)"""
-    r = region(case)
+    r = _defect_area(case)
     err = out.get("err")
     if err == "IndexError" and "F8-empty" in r:
         return "F8-empty"
     if err == "ZeroDivisionError" and "F8-zero" in r:
         return "F8-zero"
-    if "F11-lang-suppress" in r and err in (None, "IndexError"):
+    if "F11-lang-suppress" in r and err in (None, "IndexError") and "F8-empty" not in r:
         return "F11-lang-suppress"
     return None
 
@@ -969,6 +962,7 @@ def run(chk, cases=None):
         rec = {"case": c, "impl": _brief(out), "finding_class": fc, "correspondence": "corr:C14:" + c["kind"],
                "model_agrees": bool(agree), "spec_accepts_impl": spec, "theorems_at_stake": THEOREMS}
         if "err" in out and c["kind"] != "bbs":
+            rec["spec_accepts_impl"] = False
             rec["what"] = ("%s raised %s (%s) where the property promises batches (len() = number of batches, every "
                            "utterance delivered)" % (c["kind"], out["err"], out.get("msg", "")))
         elif spec is False:
@@ -995,8 +989,8 @@ def _brief(out):
 
 def _why(case, out):
     if case["kind"] == "lang" and case.get("su") and case.get("nb", 1) > 1:
-        return ("LangDataLoader with suppress_uttids=True buckets by x[0].size(0) of a bare tensor, not by the reference "
-                "length: batches mix length classes")
+        return ("LangDataLoader with suppress_uttids=True does not bucket by the reference length (F11: x[0].size(0) of a "
+                "bare tensor): batches mix length classes")
     o = out.get("ok", {})
     if isinstance(o, dict) and o.get("meta"):
         return "; ".join(o["meta"])
